@@ -28,6 +28,9 @@ type fakeS3 struct {
 	bucket  string
 	keys    map[string]bool
 	page    int
+	lists   int
+	failAt  int    // fail the failAt-th LIST request (0 = never)
+	failHow string // AccessDenied | NoSuchBucket
 	deletes []string
 	other   []string
 }
@@ -59,6 +62,14 @@ func (s *fakeS3) ServeHTTP(w http.ResponseWriter, r *http.Request) {
 	q := r.URL.Query()
 	switch {
 	case r.Method == "GET" && q.Get("list-type") == "2" && (len(parts) == 1 || parts[1] == ""):
+		s.lists++
+		if s.failAt > 0 && s.lists == s.failAt {
+			code := map[string]int{"AccessDenied": 403, "NoSuchBucket": 404}[s.failHow]
+			w.Header().Set("Content-Type", "application/xml")
+			w.WriteHeader(code)
+			fmt.Fprintf(w, `<?xml version="1.0" encoding="UTF-8"?><Error><Code>%s</Code><Message>injected</Message><BucketName>%s</BucketName><Resource>/%s</Resource><RequestId>1</RequestId><HostId>h</HostId></Error>`, s.failHow, s.bucket, s.bucket)
+			return
+		}
 		prefix := q.Get("prefix")
 		var ks []string
 		for k := range s.keys {
@@ -108,7 +119,10 @@ func (s *fakeS3) ServeHTTP(w http.ResponseWriter, r *http.Request) {
 }
 
 func c16S3(a vh.Args, o *vh.Oracle, r *vh.Result, c *c16Case) error {
-	srv := &fakeS3{bucket: "bkt", keys: map[string]bool{}, page: 3}
+	srv := &fakeS3{bucket: "bkt", keys: map[string]bool{}, page: 3, failAt: c.N, failHow: c.Backend}
+	if c.N == 0 {
+		srv.failHow = ""
+	}
 	for _, k := range c.Keys {
 		srv.keys[k] = true
 	}
@@ -178,13 +192,23 @@ func c16S3(a vh.Args, o *vh.Oracle, r *vh.Result, c *c16Case) error {
 		c.What = what
 		r.Fail("predicate", class, what, c)
 	}
-	if res != "nil" {
+	srv.mu.Lock()
+	injected := srv.failAt > 0 && srv.lists >= srv.failAt
+	srv.mu.Unlock()
+	if injected {
+		r.Dist("s3-list-failure:" + c.Backend + "/result=" + res)
+	}
+	if res != "nil" && !injected {
 		fail("s3prune/returns-error", fmt.Sprintf("S3Store.Prune returned %v", perr))
 	}
 	for _, k := range c.Keys {
 		if afterSet[k] {
 			if id, ok := canon(k); ok && !lsInSet(c.Keep, id) && res == "nil" {
-				fail("s3prune/leaves-unreferenced", "unreferenced chunk object left: "+k)
+				cls, extra := "s3prune/leaves-unreferenced", ""
+				if injected {
+					cls, extra = "s3prune/list-error-swallowed", fmt.Sprintf(" (LIST request %d was answered %s, Prune returned nil)", c.N, c.Backend)
+				}
+				fail(cls, "unreferenced chunk object left: "+k+extra)
 			}
 			continue
 		}
@@ -201,7 +225,7 @@ func c16S3(a vh.Args, o *vh.Oracle, r *vh.Result, c *c16Case) error {
 			fail("s3prune/creates-object", "object appeared: "+k)
 		}
 	}
-	if o == nil {
+	if o == nil || injected {
 		return nil
 	}
 	var hk []string
@@ -284,6 +308,17 @@ func c16S3All(a vh.Args, o *vh.Oracle, r *vh.Result, rng *vh.Rand) error {
 		}
 		c.Keep, c.KeepTag = c16Keep(rng, ids)
 		c.Feat = lsFeats(feat)
+		if i%4 == 3 { // fail every LIST request in turn (page size 3)
+			pages := len(c.Keys)/3 + 2
+			for n := 1; n <= pages; n++ {
+				fc := *c
+				fc.N, fc.Backend = n, []string{"AccessDenied", "NoSuchBucket"}[n%2]
+				fc.Keep, fc.KeepTag = nil, "empty"
+				if err := c16S3(a, o, r, &fc); err != nil {
+					return err
+				}
+			}
+		}
 		if i < 2 {
 			r.Sample(map[string]interface{}{"kind": "s3prune", "prefix": c.Prefix, "unc": c.Unc, "keys": len(c.Keys), "features": c.Feat})
 		}
